@@ -272,7 +272,6 @@ func runFrames(casesPath, tracePath string) {
 	tr := vh.NewTrace(tracePath)
 	defer tr.Close()
 	ncase, nreads := 0, 0
-	allCuts := !vh.Thorough()
 	err := vh.ReadCases(casesPath, func(raw json.RawMessage) error {
 		var c frCase
 		if err := json.Unmarshal(raw, &c); err != nil {
@@ -291,7 +290,7 @@ func runFrames(casesPath, tracePath string) {
 		if merr == "" {
 			// (b) one cut
 			offs := map[int]bool{}
-			if allCuts {
+			if len(all) <= 400 { // every offset; longer sequences: the offsets around every wire-frame boundary
 				for i := 1; i < len(all); i++ {
 					offs[i] = true
 				}
